@@ -12,6 +12,13 @@ Inductive case :=
 (* the same with n copies of one output (output-count bound without a 65536-element literal) *)
 | CTxRep (id : N) (k : kind) (pr : params) (n : N) (o : outp) (refs : list Z)
       (out_res fee_res fee : Z)
+(* SideChainPow without inputs: CheckTransactionInput / CheckTransactionOutput verdicts *)
+| CSideNew (id : N) (outs : list outp) (in_res out_res : Z)
+(* CRCAppropriation: CheckTransactionOutput, and SpecialContextCheck called with the
+   given references (tagged "owned by the CR assets address"), the committee's
+   NeedAppropriation flag and AppropriationAmount *)
+| CApprop (id : N) (pr : params) (h0 h1 : bool) (outs : list outp) (out_res : Z)
+          (needed : bool) (amount : Z) (refs : list (Z * bool)) (special_res : Z)
 (* getTransactionFee: error?, value *)
 | CFee (id : N) (refs outs : list Z) (ok : bool) (fee : Z)
 (* blockchain.GetTxFee(tx, ELAAssetID, refs) *)
@@ -35,6 +42,12 @@ Definition check (c : case) : option N :=
   | CTx id k pr outs refs out_res fee_res fee => check_tx id k pr outs refs out_res fee_res fee
   | CTxRep id k pr n o refs out_res fee_res fee =>
       check_tx id k pr (repeat o (N.to_nat n)) refs out_res fee_res fee
+  | CSideNew id outs in_res out_res =>
+      if (in_res =? 0) && (verdict (sidepow_new_outputs_ok outs) =? out_res) then None else Some id
+  | CApprop id pr h0 h1 outs out_res needed amount refs special_res =>
+      if (verdict (approp_outputs_ok pr h0 h1 outs) =? out_res) &&
+         (verdict (approp_special_ok needed refs (map o_val outs) amount) =? special_res)
+      then None else Some id
   | CFee id refs outs ok fee =>
       match tx_fee refs outs with
       | Some f => if ok && (f =? fee) then None else Some id
